@@ -277,7 +277,7 @@ func genLoop(r *rand.Rand, b *strings.Builder, id *int, depth int, outerVar stri
 	}
 	m.Form = form
 	if form == "top" {
-		m.Hdr = []string{"", "", "pre", "assign", "while"}[r.Intn(5)]
+		m.Hdr = []string{"", "", "pre", "assign", "while", "pre-onearm"}[r.Intn(6)]
 		if m.Hdr == "while" && m.Extra == "continue" {
 			m.Hdr = "pre" // `continue` would skip the update written at the end of the body
 		}
@@ -311,6 +311,15 @@ func genLoop(r *rand.Rand, b *strings.Builder, id *int, depth int, outerVar stri
 			w("for %s := %s; %s; %s {", v, conv(start), tst(cmp), post)
 		case "pre": // declared before the loop: no per-iteration copy of the variable
 			w("%s := %s", v, conv(start))
+			w("for ; %s; %s {", tst(cmp), post)
+		case "pre-onearm":
+			// declared before the loop and conditionally moved by a one-armed if right in front
+			// of it: the header is entered from the if's block and from its arm, with two
+			// different start values
+			w("%s := %s", v, conv(start))
+			w("if m&1 == 1 {")
+			w("\t%s = %s + 2", v, v)
+			w("}")
 			w("for ; %s; %s {", tst(cmp), post)
 		case "assign":
 			w("var %s %s", v, typ)
